@@ -341,6 +341,25 @@ Theorem C02_atomic_part_nonvacuous :
 Proof. exact awrap_example_ok. Qed.
 Print Assumptions C02_atomic_part_nonvacuous.
 
+(* round 4: windows are a multiset - declarations that evaluate to the same (name, begin, length) (parallel parts, a
+   declaration repeated on one node, windows of abutting executions, names merged by a mapping) are ALL reported: every
+   triple occurs in the program exactly as often as the template denotes it (corollary of C02_windows, stated because
+   "collapse equal windows" is the behaviour seed C02-5 introduced) *)
+Theorem C02_coinciding_windows_kept :
+  forall (eq_dec : forall a b : window, {a = b} + {a <> b}) p en mm prog w,
+  create_program p en mm = Program prog ->
+  count_occ eq_dec (loop_windows prog) w = count_occ eq_dec (denote p en mm) w.
+Proof. exact coinciding_kept. Qed.
+Print Assumptions C02_coinciding_windows_kept.
+Theorem C02_coinciding_windows_nonvacuous :
+  match create_program coincide_example (fun _ => Q2Qc 0) Some with
+  | Program prog => loop_windows prog = [(1%N, Q2Qc 1, Q2Qc 2); (1%N, Q2Qc 1, Q2Qc 2); (1%N, Q2Qc 1, Q2Qc 2);
+                                        (1%N, Q2Qc 5, Q2Qc 2); (1%N, Q2Qc 5, Q2Qc 2); (1%N, Q2Qc 5, Q2Qc 2)]
+  | _ => False
+  end.
+Proof. exact coincide_example_ok. Qed.
+Print Assumptions C02_coinciding_windows_nonvacuous.
+
 (* non-vacuity: a reversed repetition inside a sequence with renaming satisfies the hypotheses of C02_windows and
    C02_inside (a program is produced, all declarations inside their nodes) and reports 4 windows *)
 Example C02_example :
